@@ -24,11 +24,11 @@ from ..explore import Acc, digest
 
 ID = "C08"
 LEVEL = "exploration"
-RULE = ("all signatures with <= 3 parameters over {positional-only, positional-or-keyword, keyword-only} x "
+RULE = ("all signatures with <= 3 (quick) / <= 4 (thorough) parameters over {positional-only, positional-or-keyword, keyword-only} x "
         "{default, no default} in every order Python accepts, x optional *args, **kwargs, dependency parameter; x all "
         "payloads (subsets of names, 0-2 extras, '', '{}'); x {Basic, Pydantic, default selection}; distinct and "
         "non-trivial = distinct (signature, payload, converter) with at least one parameter or extra key")
-ASSUMPTIONS = ["values are ints (they already have the annotated type)", "at most 3 declared parameters and 2 extra keys"]
+ASSUMPTIONS = ["values are ints (they already have the annotated type)", "at most 3 (thorough: 4) declared parameters and 2 extra keys"]
 
 KINDS = ["PO", "PK", "KO"]
 FRESH_PROCESS_PER_JOB = True  # converters of other actors must not influence a case (see POLLUTERS)
@@ -38,9 +38,9 @@ def provider():
     return 777
 
 
-def signatures():
+def signatures(maxn=3):
     out = []
-    for n in range(0, 4):
+    for n in range(0, maxn + 1):
         for kinds in itertools.combinations_with_replacement(range(3), n):
             for defaults in itertools.product((False, True), repeat=n):
                 # python: among PO+PK a parameter without default may not follow one with default
@@ -148,6 +148,7 @@ POLLUTERS = [
     dict(kinds=[2, 2, 2], defaults=[True, False, True], va=True, vk=True, dep=False),
     dict(kinds=[2, 2, 2], defaults=[False, False, False], va=False, vk=False, dep=True),
     dict(kinds=[0, 1, 2], defaults=[False, False, False], va=True, vk=False, dep=False),
+    dict(kinds=[2, 2, 2, 2], defaults=[False, True, False, True], va=True, vk=False, dep=False),
 ]
 
 
@@ -248,7 +249,7 @@ def output_roundtrip():
 
 
 def jobs(tier):
-    sigs = signatures()
+    sigs = signatures(3 if tier == "quick" else 4)
     convs = list(CONVERTERS)
     items = [dict(sig=s, conv=c) for s in sigs for c in convs]
     n = 80
